@@ -89,7 +89,7 @@ def find_function(text, pattern):
     return m.group(1), body_after(text, m.end() - 1)
 
 
-TOK = re.compile(r"\s*(0[xX][0-9a-fA-F]+|\d+|[A-Za-z_][\w:]*|<<|[()\[\]{},+*&<>=|])")
+TOK = re.compile(r"\s*(0[xX][0-9a-fA-F]+|\d+\.\d*f?|\d+|[A-Za-z_][\w:]*|<<|[()\[\]{},+*&<>=|\-])")
 
 def tokenize(s):
     toks = []; i = 0; s = s.strip()
@@ -109,8 +109,10 @@ class Kernel:
     def __init__(self, name, elem, n, src, dst):
         self.name = name; self.w = 2 if elem == "float" else 1
         self.n = n; self.src = src; self.dst = dst
-        self.ints = {}; self.tables = {}; self.regs = set()
+        self.ints = {}; self.tables = {}; self.regs = {}          # C name -> Lean name
+        self.ptrs = {src: ("ptr", src, 0), dst: ("ptr", dst, 0)}
         self.lines = []; self.reads = []; self.nstore = 0
+        self.lib = ""; self.ninline = 0; self.pref = "v_"; self.retval = None; self.helpers = {}
 
     # ---- expressions
     def parse(self, toks):
@@ -158,9 +160,16 @@ class Kernel:
         if tk is None: raise Untranslatable("unexpected end")
         if re.fullmatch(r"0[xX][0-9a-fA-F]+|\d+", tk):
             self.eat(); return ("int", int(tk, 0))
+        if re.fullmatch(r"\d+\.\d*f?", tk):
+            self.eat()
+            if float(tk.rstrip("f")) != 0.0: raise Untranslatable("non-zero floating constant " + tk)
+            return ("zero",)
+        if tk == "-":
+            self.eat(); v = self.term(); return ("int", -self.ival(v))
         if tk == "&":
             self.eat(); base = self.eat(); self.eat("["); off = self.expr(); self.eat("]")
-            return ("ptr", base, self.ival(off))
+            if base not in self.ptrs: raise Untranslatable("address of non-pointer " + base)
+            b = self.ptrs[base]; return ("ptr", b[1], b[2] + self.ival(off))
         if tk == "(":
             # cast or parenthesis
             j = self.p + 1; depth = 1
@@ -169,7 +178,8 @@ class Kernel:
                 if self.t[j] == ")": depth -= 1
                 j += 1
             inner = self.t[self.p + 1:j - 1]
-            if inner and all(x in TYPE_WORDS or x in ("*", "__mmask8", "__mmask16", "__m64", "double", "float") for x in inner):
+            if inner and all(x in TYPE_WORDS or x in ("*", "__mmask8", "__mmask16", "__m64", "double", "float") for x in inner) \
+                    and not (len(inner) == 1 and (inner[0] in self.regs or inner[0] in self.ints)):
                 self.p = j; return self.term()
             self.eat("("); v = self.expr(); self.eat(")"); return v
         if tk == "reinterpret_cast":
@@ -185,10 +195,11 @@ class Kernel:
                     self.eat(); args.append(self.expr())
             self.eat(")")
             return self.call(name, args)
-        if name in (self.src, self.dst): return ("ptr", name, 0)
+        if name in self.ptrs: return self.ptrs[name]
         if name in self.ints: return ("int", self.ints[name])
         if name in self.tables: return ("idx", self.tables[name])
-        if name in self.regs: return ("reg", "v_" + name)
+        if name in self.regs: return ("reg", self.regs[name])
+        if name in ("ZEROPS", "ZEROPD"): return ("reg", "(Intr.setzero z %d)" % (4 if name == "ZEROPS" else 2))
         raise Untranslatable("unknown name " + name)
 
     def reg(self, v):
@@ -197,9 +208,52 @@ class Kernel:
     def idx(self, v):
         if v[0] != "idx": raise Untranslatable("index table expected: %r" % (v,))
         return "[" + ", ".join(map(str, v[1])) + "]"
-    def srcptr(self, v, n):
+    def srcptr(self, v, n, lanes=None):
         if v[0] != "ptr" or v[1] != self.src: raise Untranslatable("load from non-source %r" % (v,))
-        self.reads += list(range(v[2], v[2] + n)); return v[2]
+        self.reads += [v[2] + l for l in (range(n) if lanes is None else lanes)]; return v[2]
+
+    @staticmethod
+    def bools(bs): return "[" + ", ".join("true" if b else "false" for b in bs) + "]"
+
+    def inline_ref(self, f, argnames):
+        """a helper taking its registers by reference (_MM_TRANSPOSE8_PS …): body translated in place, results written back"""
+        got = find_function(self.lib, r"\b" + re.escape(f))
+        if not got: raise Untranslatable("helper " + f)
+        params, body = got
+        pnames = [re.split(r"[\s*&]+", p.strip())[-1] for p in params.split(",") if p.strip()]
+        if len(pnames) != len(argnames): raise Untranslatable("arity of " + f)
+        saved = (self.regs, self.ints, self.tables, self.ptrs, self.pref, self.retval)
+        self.ninline += 1
+        inner = {pn: self.regs[an] for pn, an in zip(pnames, argnames)}
+        self.regs = inner; self.ints = {}; self.tables = {}; self.ptrs = {}; self.pref = "v_i%d_" % self.ninline
+        for st in split_body(body):
+            self.statement(st, self.helpers)
+        (self.regs, self.ints, self.tables, self.ptrs, self.pref, self.retval) = saved
+        for pn, an in zip(pnames, argnames):
+            self.regs[an] = inner[pn]
+
+    def inline(self, f, args):
+        """a library helper (extintrin.h …) called by a kernel: its body is translated in place"""
+        got = find_function(self.lib, r"\b" + re.escape(f))
+        if not got: raise Untranslatable("intrinsic " + f)
+        params, body = got
+        pnames = [re.split(r"[\s*&]+", p.strip())[-1] for p in params.split(",") if p.strip()]
+        if len(pnames) != len(args): raise Untranslatable("arity of " + f)
+        saved = (self.regs, self.ints, self.tables, self.ptrs, self.pref, self.retval, self.t, self.p)
+        self.ninline += 1
+        self.regs = {}; self.ints = {}; self.tables = {}; self.ptrs = {}; self.pref = "v_i%d_" % self.ninline; self.retval = None
+        for pn, av in zip(pnames, args):
+            if av[0] == "ptr": self.ptrs[pn] = av
+            elif av[0] == "reg":
+                self.lines.append("  let %s%s := %s" % (self.pref, pn, av[1])); self.regs[pn] = self.pref + pn
+            elif av[0] == "int": self.ints[pn] = av[1]
+            elif av[0] == "idx": self.tables[pn] = av[1]
+            else: raise Untranslatable("argument of " + f)
+        for st in split_body(body):
+            self.statement(st, self.helpers)
+        ret = self.retval
+        (self.regs, self.ints, self.tables, self.ptrs, self.pref, self.retval, self.t, self.p) = saved
+        return ret if ret is not None else ("void",)
 
     def call(self, f, a):
         R = self.reg; I = self.ival; w = self.w
@@ -209,6 +263,19 @@ class Kernel:
         if f == "_mm_load_ss": return r("Intr.load_ss z a %d" % self.srcptr(a[0], 1))
         if f == "_mm_load_sd": return r("Intr.load_sd z a %d" % self.srcptr(a[0], 1))
         if f == "_mm_loadl_pi": return r("Intr.loadl_pi z %s a %d" % (R(a[0]), self.srcptr(a[1], 2)))
+        if f in ("_mm_set1_ps", "_mm_set1_pd"):
+            if a[0] != ("zero",): raise Untranslatable("broadcast of a non-zero constant")
+            return r("Intr.setzero z %d" % (4 if f.endswith("ps") else 2))
+        if f == "_mm_set_epi32": return ("idx", [I(x) for x in reversed(a)])
+        if f == "_mm_maskload_ps":
+            sel = [x < 0 for x in a[1][1]] if a[1][0] == "idx" else None
+            if sel is None: raise Untranslatable("mask of maskload")
+            return r("Intr.maskload z a %d %s" % (self.srcptr(a[0], 4, [l for l in range(4) if sel[l]]), self.bools(sel)))
+        if f in ("_mm_mask_loadu_ps", "_mm_mask_load_ps"):
+            sel = [(I(a[1]) >> l) & 1 == 1 for l in range(4)]
+            return r("Intr.mask_loadu z %s a %d %s" % (R(a[0]), self.srcptr(a[2], 4, [l for l in range(4) if sel[l]]), self.bools(sel)))
+        if f == "_mm_castsi128_ps": return a[0]
+        if f == "_mm_loadl_epi64": return r("Intr.loadl_pi z (Intr.setzero z 4) a %d" % self.srcptr(a[0], 2))
         if f == "_mm_setzero_ps": return r("Intr.setzero z 4")
         if f == "_MM_SHUFFLE": return ("int", (I(a[0]) << 6) | (I(a[1]) << 4) | (I(a[2]) << 2) | I(a[3]))
         two = {"_mm_unpacklo_ps": "unpacklo_ps", "_mm_unpackhi_ps": "unpackhi_ps", "_mm_movelh_ps": "movelh_ps", "_mm_movehl_ps": "movehl_ps",
@@ -237,14 +304,14 @@ class Kernel:
             return r("Intr.mask_permutexvar_pd z %s %d %s %s %d" % (R(a[0]), I(a[1]), self.idx(a[2]), R(a[3]), w))
         if f == "_mm512_mask_permutexvar_ps":
             return r("Intr.mask_permutexvar_ps z %s %d %s %s" % (R(a[0]), I(a[1]), self.idx(a[2]), R(a[3])))
-        raise Untranslatable("intrinsic " + f)
+        return self.inline(f, a)
 
     # ---- statements
     def bind(self, name, v):
         if v[0] == "int": self.ints[name] = v[1]
         elif v[0] == "idx": self.tables[name] = v[1]
         elif v[0] == "reg":
-            self.lines.append("  let v_%s := %s" % (name, v[1])); self.regs.add(name)
+            self.lines.append("  let %s%s := %s" % (self.pref, name, v[1])); self.regs[name] = self.pref + name
         else: raise Untranslatable("cannot bind %s to %r" % (name, v))
 
     def store(self, ptr, n, reg):
@@ -263,6 +330,15 @@ class Kernel:
         stores = {"_mm_storeu_ps": 4, "_mm_storeu_pd": 2, "_mm256_storeu_ps": 8, "_mm256_storeu_pd": 4, "_mm512_storeu_ps": 16, "_mm512_storeu_pd": 8,
                   "_mm_store_ss": 1, "_mm_store_sd": 1, "_mm_storel_pi": 2}
         head = toks[0].replace("internal::", "")
+        if head == "return":
+            self.retval = self.parse(toks[1:]); return
+        if head in ("_mm_maskstore_ps", "_mm_mask_storeu_ps") and toks[1] == "(":
+            self.t = toks; self.p = 2
+            ptr = self.expr(); self.eat(","); m = self.expr(); self.eat(","); reg = self.expr(); self.eat(")")
+            sel = [x < 0 for x in m[1]] if m[0] == "idx" else [(self.ival(m) >> l) & 1 == 1 for l in range(4)]
+            if ptr[0] != "ptr" or ptr[1] != self.dst: raise Untranslatable("store to non-destination %r" % (ptr,))
+            self.lines.append("  let s%d := s%d ++ Intr.maskstore z %d %s %s" % (self.nstore + 1, self.nstore, ptr[2], self.bools(sel), self.reg(reg)))
+            self.nstore += 1; return
         if head in stores and toks[1] == "(":
             self.t = toks; self.p = 2
             ptr = self.expr(); self.eat(","); reg = self.expr(); self.eat(")")
@@ -271,8 +347,19 @@ class Kernel:
             args = [x for x in toks[2:-1] if x != ","]
             for x in args:
                 if x not in self.regs: raise Untranslatable("helper argument " + x)
-            fn = "Intr.MM_TRANSPOSE4_PS z" if head == "_MM_TRANSPOSE4_PS" else "%s z" % helpers[head]
-            self.lines.append("  let (%s) := %s %s" % (", ".join("v_" + x for x in args), fn, " ".join("v_" + x for x in args)))
+            if head == "_MM_TRANSPOSE4_PS":
+                # the compiler's macro (xmmintrin.h), statement by statement (= Intr.MM_TRANSPOSE4_PS)
+                self.ninline += 1; q = "%sm%d_" % (self.pref, self.ninline)
+                r0, r1, r2, r3 = [self.regs[x] for x in args]
+                for (nm, op, x, y) in [("t0", "unpacklo_ps", r0, r1), ("t1", "unpacklo_ps", r2, r3), ("t2", "unpackhi_ps", r0, r1), ("t3", "unpackhi_ps", r2, r3)]:
+                    self.lines.append("  let %s%s := Intr.%s z %s %s" % (q, nm, op, x, y))
+                for (x, op, u, w) in zip(args, ("movelh_ps", "movehl_ps", "movelh_ps", "movehl_ps"), ("t0", "t1", "t2", "t3"), ("t1", "t0", "t3", "t2")):
+                    self.lines.append("  let %sr_%s := Intr.%s z %s%s %s%s" % (q, x, op, q, u, q, w)); self.regs[x] = "%sr_%s" % (q, x)
+                return
+            self.inline_ref(head, args); return
+        if re.fullmatch(r"[A-Za-z_]\w*", head) and len(toks) > 1 and toks[1] == "(" and "=" not in toks and head not in TYPE_WORDS:
+            v = self.parse(toks)          # a library helper called for its stores
+            if v != ("void",): raise Untranslatable("value of %s discarded" % head)
             return
         if "=" in toks:
             eq = toks.index("="); lhs = toks[:eq]; name = lhs[-1]
@@ -313,7 +400,8 @@ def translate_helper(text, hname, lname, elem):
     params, body = got
     names = [p.split("&")[-1].strip() for p in params.split(",")]
     k = Kernel(lname, elem, 0, "_none", "_none")
-    k.regs |= set(names)
+    k.lib = text
+    for nm in names: k.regs[nm] = "v_" + nm
     for st in split_body(body):
         k.statement(st, {})
     ret = "(" + ", ".join("v_" + n for n in names) + ")"
@@ -334,6 +422,7 @@ def translate_kernel(text, elem, n, cfg, helpers):
         if not got2: raise Untranslatable("_MM_TRANSPOSE16_PS not found")
         body = got2[1]; src, dst = "mat", "matT"
     k = Kernel(lname, elem, n, src, dst)
+    k.lib = text; k.helpers = helpers
     k.lines.append("  let s0 : List (Nat × α) := []")
     for st in split_body(body):
         k.statement(st, helpers)
@@ -341,37 +430,37 @@ def translate_kernel(text, elem, n, cfg, helpers):
     nn = n * n
     out = ["def %s {α : Type} (z : α) (a : Nat → α) : List (Nat × α) :=\n%s\n" % (lname, "\n".join(k.lines)),
            "def %s_reads : List Nat := [%s]\n" % (lname, ", ".join(map(str, k.reads))),
-           "/-- `_transpose<%s,%d,%d>` under %s, run on lane tokens (cell `k` of the source holds the token `k`, a zeroed lane holds `%d`):\n    the stores leave exactly the transposed matrix in `out[0..%d)`.  The kernel is one polymorphic definition that only\n    moves lanes, so its lane map does not depend on the element type. -/" % (elem, n, n, cfg, nn, nn),
-           "theorem %s_correct : Intr.finalCells (%s %d id) %d = Intr.transposed id %d := by decide\n" % (lname, lname, nn, nn, n),
-           "theorem %s_stores_inside : Intr.allBelow ((%s %d id).map (·.1)) %d = true := by decide\n" % (lname, lname, nn, nn),
-           "theorem %s_reads_inside : Intr.allBelow %s_reads %d = true := by decide\n" % (lname, lname, nn)]
+           "/-- `_transpose<%s,%d,%d>` under %s run on lane tokens (`some k` = source cell `k`, `none` = a zeroed lane) -/" % (elem, n, n, cfg),
+           "theorem %s_tok : Intr.finalCells (%s (none : Option Nat) some) %d = Intr.transposed some %d := by decide\n" % (lname, lname, nn, n),
+           "theorem %s_stores_inside : Intr.allBelow ((%s (none : Option Nat) some).map (·.1)) %d = true := by decide\n" % (lname, lname, nn),
+           "theorem %s_reads_inside : Intr.allBelow %s_reads %d = true := by decide\n" % (lname, lname, nn),
+           "/-- the kernel only moves lanes: it commutes with any reading of the tokens as elements -/",
+           "theorem %s_natural {α : Type} (z : α) (a : Nat → α) :\n    (%s (none : Option Nat) some).map (Prod.map id (Intr.ofTok z a)) = %s z a := by\n  simp only [%s, Intr.load_map, Intr.load_ss_map, Intr.load_sd_map, Intr.loadl_pi_map, Intr.setzero_map, Intr.maskload_map, Intr.mask_loadu_map, Intr.unpacklo_ps_map, Intr.unpackhi_ps_map, Intr.movelh_ps_map, Intr.movehl_ps_map, Intr.shuffle_ps_map, Intr.shuffle_pd_map, Intr.unpacklo_ps256_map, Intr.unpackhi_ps256_map, Intr.shuffle_ps256_map, Intr.shuffle_pd256_map, Intr.half128_map, Intr.permute2f128_map, Intr.permutevar8x32_map, Intr.cast256_128_map, Intr.extractf128_pd_map, Intr.cast128_256_map, Intr.insertf128_pd_map, Intr.permutexvar_map, Intr.lane64_map, Intr.permutexvar_pd_map, Intr.permutex2var_pd_map, Intr.mask_permutexvar_pd_map, Intr.mask_permutexvar_ps_map, Intr.insert256_map, Intr.cast512_256_map, Intr.cast256_512_map, Intr.store_map, Intr.maskstore_map, Intr.ofTok_some, Intr.ofTok_none, List.map_append, List.map_nil, List.nil_append]\n" % (lname, lname, lname, lname),
+           "/-- **`_transpose<%s,%d,%d>` under %s, for every element type**: the stores leave exactly the transposed matrix in\n    `out[0..%d)` and fall nowhere else -/" % (elem, n, n, cfg, nn),
+           "theorem %s_correct {α : Type} (z : α) (a : Nat → α) :\n    Intr.finalCells (%s z a) %d = Intr.transposed a %d ∧ Intr.allBelow ((%s z a).map (·.1)) %d = true := by\n"
+           "  obtain ⟨h1, h2⟩ := Intr.of_tokens (fun {γ} => @%s γ) %d %d (%s_natural) %s_tok z a\n  exact ⟨h1, by rw [h2]; exact %s_stores_inside⟩\n"
+           % (lname, lname, nn, n, lname, nn, lname, nn, n, lname, lname, lname)]
     return lname, "\n".join(out)
 
 
 def generate(repo, isa_flags):
     """returns (lean text, list of kernel names, list of problems)"""
-    src = strip_comments(open(os.path.join(repo, "Fastor/backend/transpose/transpose_kernels.h")).read()) + "\n" + \
+    src = strip_comments(open(os.path.join(repo, "Fastor/simd_vector/extintrin.h")).read()) + "\n" + \
+          strip_comments(open(os.path.join(repo, "Fastor/backend/transpose/transpose_kernels.h")).read()) + "\n" + \
           strip_comments(open(os.path.join(repo, "Fastor/backend/transpose/transpose.h")).read())
-    parts = ["import FastorModel.Model.Intrinsics",
+    parts = ["import FastorModel.Proofs.Intrinsics",
              "/-  GENERATED by props/c14_kernels.py from Fastor/backend/transpose/{transpose.h,transpose_kernels.h} — do not edit.",
              "    One definition per intrinsic transposition kernel and ISA configuration (conditional compilation resolved with",
              "    the macros config.h defines under that configuration's compiler flags), statement by statement. -/",
-             "set_option maxRecDepth 100000", "namespace Fastor.C14K", "open Fastor", ""]
+             "set_option maxRecDepth 100000", "namespace Fastor.C14K", "open Fastor", "",
+             ""]
     names = []; problems = []; seen = {}
     for cfg in CFGS:
         try:
             text = preprocess(src, defined_macros(repo, isa_flags[cfg]))
         except Untranslatable as e:
             problems.append("%s: %s" % (cfg, e)); continue
-        helpers = {}
-        for h in HELPERS:
-            elem = "double" if h.endswith("PD") else "float"
-            try:
-                lean = translate_helper(text, h, "h%s_%s" % (h, cfg), elem)
-            except Untranslatable as e:
-                problems.append("%s %s: %s" % (cfg, h, e)); continue
-            if lean:
-                helpers[h] = "h%s_%s" % (h, cfg); parts.append(lean)
+        helpers = {h: h for h in HELPERS if find_function(text, r"void\s+" + h)}
         for (elem, n) in KERNELS:
             try:
                 got = translate_kernel(text, elem, n, cfg, helpers)
@@ -382,10 +471,11 @@ def generate(repo, isa_flags):
     if names:
         parts.append("/-- every translated kernel, under every configuration, realises the transposition lane map, stores only\n"
                      "    inside the result and loads only inside the source -/")
-        parts.append("def AllKernels : Prop :=\n    " + " ∧\n    ".join(
-            "(Intr.finalCells (%s %d id) %d = Intr.transposed id %d ∧ Intr.allBelow ((%s %d id).map (·.1)) %d = true ∧ Intr.allBelow %s_reads %d = true)"
-            % (nm, nn, nn, n, nm, nn, nn, nm, nn) for nm, n, nn in [(x, int(re.search(r"(\d+)_", x).group(1)), int(re.search(r"(\d+)_", x).group(1)) ** 2) for x in names]) + "\n\ntheorem all_kernels : AllKernels :=\n  ⟨" +
-            ", ".join("⟨%s_correct, %s_stores_inside, %s_reads_inside⟩" % (x, x, x) for x in names) + "⟩\n")
+        parts.append("def AllKernels : Prop :=\n    ∀ {α : Type} (z : α) (a : Nat → α),\n    " + " ∧\n    ".join(
+            "(Intr.finalCells (%s z a) %d = Intr.transposed a %d ∧ Intr.allBelow ((%s z a).map (·.1)) %d = true ∧ Intr.allBelow %s_reads %d = true)"
+            % (nm, nn, n, nm, nn, nm, nn) for nm, n, nn in [(x, int(re.search(r"(\d+)_", x).group(1)), int(re.search(r"(\d+)_", x).group(1)) ** 2) for x in names]) +
+            "\n\ntheorem all_kernels : AllKernels := fun z a =>\n  ⟨" +
+            ", ".join("⟨(%s_correct z a).1, (%s_correct z a).2, %s_reads_inside⟩" % (x, x, x) for x in names) + "⟩\n")
     parts.append("end Fastor.C14K\n")
     return "\n".join(parts), names, problems
 
@@ -404,8 +494,10 @@ def check_against_snapshot(repo, isa_flags, lean_dir, scratch):
     if text == snap:
         res["status"] = "identical"; return res
     f = os.path.join(scratch, "C14KernelsFresh.lean")
+    diag = "\n".join('#eval IO.println s!"BAD %s {Fastor.Intr.badCells (Fastor.C14K.%s %d id) %d}"' % (x, x, kn * kn, kn)
+                     for x, kn in [(x, int(re.search(r"(\d+)_", x).group(1))) for x in names])
     with open(f, "w") as fh:
-        fh.write(text)
+        fh.write(text + "\n" + diag + "\n")
     p = subprocess.run(["lake", "env", "lean", f], cwd=lean_dir, stdout=subprocess.PIPE, stderr=subprocess.STDOUT, text=True, timeout=3600)
     lines = text.split("\n")
     failed = []
@@ -417,5 +509,7 @@ def check_against_snapshot(repo, isa_flags, lean_dir, scratch):
                 if mm.group(1) not in failed: failed.append(mm.group(1))
                 break
     res["failed"] = failed; res["output"] = p.stdout[-1500:]
+    res["bad_lanes"] = {m.group(1): m.group(2)[:600] for m in re.finditer(r"^BAD (\S+) (.*)$", p.stdout, flags=re.M)
+                        if m.group(2).strip() != "([], [])"}
     res["status"] = "changed-failed" if (p.returncode != 0 or failed) else "changed-proved"
     return res
